@@ -2,6 +2,7 @@
 mod dev;
 mod fs;
 mod mkfs;
+mod pure;
 mod reader;
 mod sd;
 mod sim;
@@ -69,6 +70,25 @@ fn main() {
             }
             let _ = std::fs::remove_file(format!("{}.progress", &args[3]));
             println!("{}", serde_json::json!({"histories": tot.0, "api_calls": tot.1, "dev_writes": tot.2, "dev_reads": tot.3, "crash_mounts": tot.4, "panics": tot.5}));
+        }
+        "crc" => {
+            // vh crc <out.ndjson> <tier> <seed>
+            let mut out = std::io::BufWriter::new(std::fs::File::create(&args[2]).expect("create out"));
+            let r = pure::crc_vectors(&mut out, &args[3], args[4].parse().unwrap());
+            out.flush().unwrap();
+            println!("{}", r);
+        }
+        "codec" => {
+            let mut out = std::io::BufWriter::new(std::fs::File::create(&args[2]).expect("create out"));
+            let r = pure::codec_vectors(&mut out, &args[3], args[4].parse().unwrap());
+            out.flush().unwrap();
+            println!("{}", r);
+        }
+        "lfn" => {
+            let mut out = std::io::BufWriter::new(std::fs::File::create(&args[2]).expect("create out"));
+            let r = pure::lfn_vectors(&mut out, &args[3], args[4].parse().unwrap());
+            out.flush().unwrap();
+            println!("{}", r);
         }
         "sd" => {
             // vh sd <scenarios.json> <out.ndjson>
